@@ -41,8 +41,24 @@ type chain struct {
 	// invokecontainedscript (N3 witness verification): answer of the verification
 	onContained func(tx *transaction.Transaction) bool
 
+	// fault injection (C38): asked for every request before it is answered; a non-zero answer
+	// makes the node fail exactly this request (see the fault* constants)
+	onFault func(in *params.In) int
+	// traverseiterator: the next batch of items (JSON of stack items); nil hook = no items
+	onTraverse func() []json.RawMessage
+	// RPC methods that are not served by handle() (answered = false: not served here either)
+	onOther func(in *params.In) (res any, e *rpcErr, answered bool)
+
 	log []string // names of state-changing / unexpected RPCs seen
 }
+
+// ways the fake node can fail a single request
+const (
+	faultNone    = 0
+	faultError   = 1 // JSON-RPC error answer
+	faultGarbage = 2 // an answer whose result cannot be decoded by the client
+	faultDrop    = 3 // the connection is closed without an answer
+)
 
 func halt(items ...stackitem.Item) *result.Invoke {
 	return &result.Invoke{State: "HALT", GasConsumed: 1, Stack: items}
@@ -163,7 +179,15 @@ func (c *chain) handle(in *params.In) (any, *rpcErr) {
 	case "terminatesession":
 		return true, nil
 	case "traverseiterator":
+		if c.onTraverse != nil {
+			return c.onTraverse(), nil
+		}
 		return []any{}, nil
+	}
+	if c.onOther != nil {
+		if res, e, ok := c.onOther(in); ok {
+			return res, e
+		}
 	}
 	c.note("unexpected:" + in.Method)
 	return nil, &rpcErr{-32601, "method not found"}
@@ -184,7 +208,21 @@ func newChain() *chain {
 			if err := json.Unmarshal(msg, &in); err != nil {
 				continue
 			}
+			fk := faultNone
+			if c.onFault != nil {
+				fk = c.onFault(&in)
+			}
+			// the request is served (and recorded by the scenario's callbacks) in any case; the
+			// fault only affects what the client gets back
 			res, e := c.handle(&in)
+			switch fk {
+			case faultDrop:
+				return
+			case faultError:
+				res, e = nil, &rpcErr{-32000, "injected failure"}
+			case faultGarbage:
+				res, e = "\x00not a result", nil
+			}
 			out := map[string]any{"jsonrpc": "2.0", "id": in.RawID}
 			if e != nil {
 				out["error"] = e
